@@ -58,6 +58,12 @@ type halfEdgeRecord struct {
 	// in the input geometries.
 	srcFace [2]bool
 
+	// srcFaceCount is the number of areal components of each operand that
+	// this edge explicitly borders onto (with the component's interior on
+	// this half edge's side). It can exceed 1 when components of a
+	// GeometryCollection operand overlap.
+	srcFaceCount [2]int
+
 	// inSet encodes whether or not this edge is (explicitly or implicitly)
 	// part of the input geometry for each operand.
 	inSet [2]bool
